@@ -434,7 +434,11 @@ def replay(path):
         print("model (data path):", b[0][:1500])
     elif not op.startswith("hs "):
         b, _ = core.run_lines(model, [op], shards=1)
-        print("model:", b[0][:1500]); print("AGREE" if a[0] == b[0] else "DIFFER")
+        print("model:", b[0][:1500])
+        if b[0].startswith("ERR bad-op"):
+            print("(this op has no model line: it is decided by the property oracle; recorded violation text: %s)" % r.get("text", "")[:600])
+        else:
+            print("AGREE" if a[0] == b[0] else "DIFFER")
     return 0
 
 
